@@ -14,6 +14,7 @@ import (
 	"flag"
 	"fmt"
 	"math/rand"
+	"net/http"
 	"net/url"
 	"os"
 	"strings"
@@ -68,6 +69,40 @@ func baseURL(ctx []string, slash, host bool) string {
 type result struct {
 	full, escaped, rawQuery string
 	err                     error
+}
+
+// captureRT records the URL of the request a client call sends and answers 204
+type captureRT struct{ u *url.URL }
+
+func (c *captureRT) RoundTrip(req *http.Request) (*http.Response, error) {
+	c.u = req.URL
+	return &http.Response{StatusCode: 204, Header: http.Header{"X-Restli-Protocol-Version": {"2.0.0"}}, Body: http.NoBody, Request: req}, nil
+}
+
+// constructCall goes through the client's call functions (Delete, Update) instead of the request constructors
+func constructCall(base string, rp string, query *string, kind string) result {
+	u, err := url.Parse(base)
+	if err != nil {
+		return result{err: err}
+	}
+	rt := &captureRT{}
+	c := &restli.Client{Client: &http.Client{Transport: rt}, HostnameResolver: &restli.SimpleHostnameResolver{Hostname: u}}
+	var q restli.QueryParamsEncoder
+	if query != nil {
+		q = restli.QueryParamsString(*query)
+	}
+	if kind == "delete-call" {
+		err = restli.Delete(c, context.Background(), restli.ResourcePathString(rp), q)
+	} else {
+		err = restli.Update(c, context.Background(), restli.ResourcePathString(rp), emptyBody{}, q, nil)
+	}
+	if rt.u == nil {
+		if err == nil {
+			err = fmt.Errorf("no request was sent")
+		}
+		return result{err: err}
+	}
+	return result{full: rt.u.String(), escaped: rt.u.EscapedPath(), rawQuery: rt.u.RawQuery}
 }
 
 func construct(base string, rp string, query *string, json bool) result {
@@ -155,10 +190,16 @@ func main() {
 			rp := "/" + strings.Join(row.Rp, "/")
 			wantPath := "/" + strings.Join(row.Path, "/")
 			query := queries[row.Query]
-			for _, js := range []bool{false, true} {
-				r := construct(base, rp, query, js)
+			for _, kind := range []string{"get-request", "json-request", "delete-call", "update-call"} {
+				js := kind == "json-request"
+				var r result
+				if strings.HasSuffix(kind, "-call") {
+					r = constructCall(base, rp, query, kind)
+				} else {
+					r = construct(base, rp, query, js)
+				}
 				compared++
-				cs := map[string]any{"base": base, "resource_path": rp, "query": row.Query, "json_request": js, "got": r.full, "want_path": wantPath}
+				cs := map[string]any{"base": base, "resource_path": rp, "query": row.Query, "kind": kind, "got": r.full, "want_path": wantPath}
 				if r.err != nil {
 					violation("C15/error", "request construction failed: "+r.err.Error(), cs)
 					continue
